@@ -18,6 +18,11 @@
 //! succeed / fail / panic at its first poll; C = poll the oldest call future of this thread; D = drop it unpolled;
 //! I = `in_flight()`; S<d>/F/L as in `mw_limit`), `manual sched s=<tid,…>`: every operation starts with an explicit
 //! yield point, then one turn per hooked atomic. What a thread still holds at the end is dropped after the round.
+//!
+//! `arrive … callpanic=1` (on a fresh clone, a checked clone or a persistent handle): the wrapped service's
+//! `Service::call` itself panics for this request (`CallPanic`: what Buffer / ConcurrencyLimit do when called without
+//! readiness, a `service_fn` closure that panics before its async block) — no future is ever returned; the adapter
+//! catches the unwind around `svc.call(req)` and logs `result c panic`. The limiter's handles stay in use afterwards.
 use crate::mw_limit::{build_algorithm, lat_ns, parse_prog, render_outs, run_prog, FOp};
 use crate::sched::run_scheduled_with;
 use crate::world::*;
@@ -31,7 +36,30 @@ use std::task::{Context, Poll, Waker};
 use tower::{Layer, Service};
 use tower_resilience_adaptive::{AdaptiveError, AdaptiveLimiterLayer, AdaptiveService, Algorithm};
 
-type Svc = AdaptiveService<Inner, Algorithm>;
+/// The scripted inner service, except that `call()` itself panics for a request marked `callpanic=1` (the panic
+/// happens inside `Service::call`, before any future exists). Nothing is logged and no serial number is consumed:
+/// the scripted service is not reached.
+#[derive(Clone)]
+pub struct CallPanic {
+    inner: Inner,
+}
+const CALL_PANIC: u64 = u64::MAX;
+impl Service<Req> for CallPanic {
+    type Response = Resp;
+    type Error = IErr;
+    type Future = <Inner as Service<Req>>::Future;
+    fn poll_ready(&mut self, cx: &mut Context<'_>) -> Poll<Result<(), IErr>> {
+        self.inner.poll_ready(cx)
+    }
+    fn call(&mut self, req: Req) -> Self::Future {
+        if req.tag == CALL_PANIC {
+            panic!("scripted panic inside call()");
+        }
+        self.inner.call(req)
+    }
+}
+
+type Svc = AdaptiveService<CallPanic, Algorithm>;
 type Fut = <Svc as Service<Req>>::Future;
 
 pub struct Adapter {
@@ -51,7 +79,7 @@ impl Adapter {
         let inner = Inner::strict("");
         let shared = inner.shared.clone();
         Adapter {
-            svc: layer.layer(inner),
+            svc: layer.layer(CallPanic { inner }),
             shared,
             checked: BTreeMap::new(),
             arrived: BTreeSet::new(),
@@ -135,6 +163,22 @@ fn ready_scripted(shared: &Arc<Mutex<InnerShared>>, s: &mut Svc, ans: char) -> R
             } else {
                 Rd::Refused
             }
+        }
+    }
+}
+
+/// `Service::call` on `svc` for caller `c`; with `callpanic=1` the wrapped service's `call()` panics: the unwind is
+/// caught here (the caller survives and the limiter stays in use), the caller never gets a future
+fn call_on(svc: &mut Svc, c: usize, kv: &Kv) -> Option<CallFut> {
+    let mut req = Req::new(c, kv);
+    if kv.u64("callpanic", 0) == 1 {
+        req.tag = CALL_PANIC;
+    }
+    match catch_unwind(AssertUnwindSafe(|| svc.call(req))) {
+        Ok(f) => Some(held(f, render)),
+        Err(_) => {
+            log(format!("result {} panic", c));
+            None
         }
     }
 }
@@ -227,9 +271,8 @@ fn thread_body(mut svc: Svc, tid: usize, prog: Vec<TOp>, left: Arc<Mutex<Vec<Fut
 impl Mw for Adapter {
     fn arrive(&mut self, c: usize, kv: &Kv) -> Option<CallFut> {
         self.arrived.insert(c);
-        let req = Req::new(c, kv);
         if let Some(mut svc) = self.checked.remove(&c) {
-            return Some(held(svc.call(req), render));
+            return call_on(&mut svc, c, kv);
         }
         let h = kv.u64("h", 0) as usize;
         if h > 0 {
@@ -254,7 +297,7 @@ impl Mw for Adapter {
                 }
             }
             e.1 = false;
-            return Some(held(e.0.call(req), render));
+            return call_on(&mut e.0, c, kv);
         }
         let mut svc = {
             let mut s = self.svc.clone();
@@ -270,8 +313,7 @@ impl Mw for Adapter {
                 }
             }
         };
-        let fut = svc.call(req);
-        Some(held(fut, render))
+        call_on(&mut svc, c, kv)
     }
     fn probe(&mut self, what: &str, _kv: &Kv) {
         match what {
